@@ -1009,7 +1009,7 @@ def c06(tier):
 
 # ------------------------------------------------------------------------------------------------ C11
 def order_sensitive_programs(rng, n):
-    """programs with many names in every hashed table: globals, functions, locals in nested scopes, labels, fields, methods"""
+    """programs with many names in every hashed table: globals, functions, locals in nested scopes, labels, fields, methods; and programs with runs of 2..7 adjacent labels"""
     out = []
     for k in range(n):
         names = ['g%s%d' % (rng.choice('abcdefghij'), i) for i in range(rng.randint(8, 25))]
@@ -1035,6 +1035,15 @@ def order_sensitive_programs(rng, n):
         es.append(Pr(' '.join(['~'] * min(len(names), 6)) + '\\n', [V(nm) for nm in names[:6]]))
         ast = Top(es)
         out.append({'name': 'hashy:%d' % k, 'text': unparse(ast), 'ast': ast})
+    # runs of adjacent labels (2 ... 7 of them): one-armed ifs nested in tail position at the end of a loop body / a function body / the program, if-else ladders that end together
+    for d in range(2, 8):
+        conds = ' '.join('if i > %d then' % j for j in range(1, d + 1))
+        ladder = ' else '.join('if i == %d then print("=%d;")' % (j, j) for j in range(1, d + 1)) + ' else print("other;")'
+        for frame, text in (('loop', 'let n = 0; let i = 0; while i < %d do begin i <- i + 1; %s n <- n + i end; print("~ ~\\n", n, i)' % (d + 3, conds)),
+                            ('function', 'function f(i) -> begin print("f~;", i); %s print("deep ~;", i) end; let k = 0; while k < %d do begin f(k); k <- k + 1 end; print("\\n")' % (conds, d + 3)),
+                            ('ladder-in-loop', 'let i = 0; while i < %d do begin i <- i + 1; %s end; print("\\n")' % (d + 2, ladder)),
+                            ('program-end', 'let i = %d; print("start\\n"); %s print("reached\\n")' % (d, conds))):
+            out.append({'name': 'labelrun:%d/%s' % (d, frame), 'text': text, 'ast': None})
     return out
 
 
